@@ -10,7 +10,8 @@ package main
 // A step S adds ONE more switch to X.  The property as written predicts run(X+S) from run(X) alone:
 //   -d N / checks{disabled+=N} / rule{disable=[N]}  : problems of reporter N disappear, nothing else changes
 //        (except, for the two global forms, rules on which a matching rule{enable=[N]} block overrides them);
-//   --offline                                       : the same for every N in OnlineChecks;
+//   --offline                                       : the same for every N whose live check objects have Meta().Online (read from the
+//        parsed rules, NOT from the OnlineChecks list that DisableOnlineChecks walks: a disagreement of the two shows up as a failure);
 //   -e E (X has no enabled list)                    : only reporters in E (and unconditional parse problems) stay;
 //   -d 'N(server…)' / -d 'N(+tag)'                  : only the instances of N bound to that server / to the servers
 //        carrying the tag are switched off.  Every server of these scenarios is unreachable, so each server-bound instance
@@ -150,13 +151,6 @@ func c08RuleLayout(pool []string) (string, []c08RuleAt) {
 	return text, at
 }
 
-var c08OnlineSet = func() map[string]bool {
-	m := map[string]bool{}
-	for _, o := range checks.OnlineChecks {
-		m[o] = true
-	}
-	return m
-}()
 
 func c08GenBase(r *rand.Rand) c08Base {
 	var b c08Base
@@ -265,21 +259,24 @@ func c08GenSteps(r *rand.Rand, b c08Base) []c08Step {
 }
 
 // instances of server-bound checks, from the live parsed rules of the loaded base configuration
-func c08Instances(dir string, b c08Base) ([]c08Inst, map[string]bool, error) {
+func c08Instances(dir string, b c08Base) ([]c08Inst, map[string]bool, map[string]bool, error) {
 	cfg, err := scLoadConfig(filepath.Join(dir, "load"), b.config(nil))
 	if err != nil {
-		return nil, nil, err
+		return nil, nil, nil, err
 	}
 	gen := config.NewPrometheusGenerator(cfg, prometheus.NewRegistry())
 	if err := gen.GenerateStatic(); err != nil {
-		return nil, nil, err
+		return nil, nil, nil, err
 	}
 	defer gen.Stop()
 	entries, err := scEntries(dir, "rules")
 	if err != nil || len(entries) == 0 {
-		return nil, nil, fmt.Errorf("no entries: %v", err)
+		return nil, nil, nil, fmt.Errorf("no entries: %v", err)
 	}
 	mixed := map[string]bool{} // reporters that also have an instance not bound to a server (promql/range_query)
+	// Meta().Online of the live check objects, keyed by the name they REPORT under: what "sends live queries" means
+	// for the --offline expectation, independently of the OnlineChecks list that DisableOnlineChecks walks
+	online := map[string]bool{}
 	_, prs := config.VerifParsedRules(scCtx("lint"), &cfg, gen, entries[0])
 	var out []c08Inst
 	seen := map[string]bool{}
@@ -294,12 +291,15 @@ func c08Instances(dir string, b c08Base) ([]c08Inst, map[string]bool, error) {
 		if !bound {
 			mixed[p.Name] = true
 		}
+		if p.Check.Meta().Online {
+			online[p.Check.Reporter()] = true
+		}
 		if bound && !seen[s] {
 			seen[s] = true
 			out = append(out, c08Inst{Name: p.Name, String: s, Tags: append([]string{}, p.Tags...)})
 		}
 	}
-	return out, mixed, nil
+	return out, mixed, online, nil
 }
 
 // does the --disabled value v switch instance i off?  (documented forms: name, String(), name(+tag), regexp over names)
@@ -336,6 +336,7 @@ func c08Pairs(r *rand.Rand, rep *runReport, cwd string, n int) {
 	bases := make([]c08Base, nb)
 	insts := make([][]c08Inst, nb)
 	mixed := make([]map[string]bool, nb)
+	metaOnline := make([]map[string]bool, nb)
 	steps := make([][]c08Step, nb)
 	var jobs []job
 	for i := range bases {
@@ -343,7 +344,7 @@ func c08Pairs(r *rand.Rand, rep *runReport, cwd string, n int) {
 		dir := filepath.Join(cwd, "pairs", fmt.Sprintf("b%03d", i))
 		writeFile(filepath.Join(dir, "rules", "0.yml"), rulesText)
 		var err error
-		insts[i], mixed[i], err = c08Instances(dir, bases[i])
+		insts[i], mixed[i], metaOnline[i], err = c08Instances(dir, bases[i])
 		if err != nil {
 			rep.hist("pairs:base-config-rejected")
 			rep.Notes = append(rep.Notes, "pairs: base config rejected: "+err.Error())
@@ -469,7 +470,7 @@ func c08Pairs(r *rand.Rand, rep *runReport, cwd string, n int) {
 			keepN := len(ps)
 			switch st.Kind {
 			case "offline":
-				if c08OnlineSet[p.Reporter] && !overridden(p, p.Reporter) {
+				if metaOnline[jb.base][p.Reporter] && !overridden(p, p.Reporter) {
 					keepN = 0
 				}
 			case "flag-disabled", "cfg-disabled":
